@@ -1,83 +1,426 @@
-"""G4: the ordered if/elif cascade of FortranContainer.__init__ (ford/sourceform.py),
-extracted with `ast`, written to lean/FordModel/Generated/C01.lean.
+"""Tables of lean/FordModel/Generated/C01.lean, regenerated from the working tree of FORD on every run.
 
-Each entry is (test, guard): `test` is the head of the branch condition - the regex
-attribute whose match decides the branch, or a literal test - and `guard` is the
-source text of any extra conjuncts (normalised by ast.unparse)."""
+Round 5: the tables follow the MEANING of the code, not its spelling.
+
+  structure   `cascade` - the if/elif chain of FortranContainer.__init__ (which regular expression decides a
+              branch, with which extra guard), found as the longest chain inside the statement loop, with the local
+              variables alpha-renamed in order of first use (`v1 == 'contains'`, `v2 == 0`, ...), constant
+              containers of an `in` test normalised, and one-line helper functions / methods inlined;
+  objects     `hasattrTable` - which list attributes an object of every container class HAS while its statements
+              are read (observed on real objects at the moment `_cleanup` is entered, by a profile hook);
+              `canHaveContains` - the run-time value of `_can_have_contains`;
+  patterns    regular expressions are taken from the COMPILED objects and compared with the pattern the Lean
+              scanner was written for by meaning: equal parse trees (`re._parser.parse`, so re.VERBOSE layout,
+              comments, raw-string splitting and flag spelling do not matter), else an exhaustive differential
+              run over token sequences derived from the pattern; the table carries the modelled text when the
+              compiled pattern is equivalent to it and the compiled text otherwise;
+  behaviour   the statements the models mirror (masking loop, restoring loop, attribute bookkeeping, the branch
+              and the initialiser of a derived type, the name / specification split of an entity, the matching
+              of dummy arguments) are PROBED: the real functions run on a fixed list of inputs and what they
+              do is recorded; Props/C01.lean proves (`decide`) that the models compute exactly that.
+
+A probe that cannot be run, or a construct that cannot be found, raises (= tie broken, never a pass)."""
+from __future__ import annotations
+
 import ast
-from pathlib import Path
+import copy
+import itertools
+import random
+import re
+import sys
+
+try:  # Python >= 3.11
+    import re._parser as sre_parse
+except ImportError:  # pragma: no cover
+    import sre_parse  # type: ignore
 
 from harness import common
 
+GENERATED = common.LEAN / "FordModel" / "Generated" / "C01.lean"
 
-def cascade():
-    src = (common.REPO / "ford" / "sourceform.py").read_text()
-    tree = ast.parse(src)
-    cls = next(n for n in tree.body if isinstance(n, ast.ClassDef) and n.name == "FortranContainer")
-    init = next(n for n in cls.body if isinstance(n, ast.FunctionDef) and n.name == "__init__")
-    loop = next(n for n in init.body if isinstance(n, ast.For) and ast.unparse(n.iter) == "source")
-    # the cascade is the `if` statement whose first test is `line_lower == 'contains'`
-    node = next(n for n in loop.body if isinstance(n, ast.If) and ast.unparse(n.test) == "line_lower == 'contains'")
+
+# ---------------------------------------------------------------------------------------------------------
+# Lean literals
+# ---------------------------------------------------------------------------------------------------------
+
+def lean_str(s):
     out = []
-    while True:
-        out.append(describe(node.test))
-        if len(node.orelse) == 1 and isinstance(node.orelse[0], ast.If):
-            node = node.orelse[0]
+    for ch in s:
+        if ch == "\\":
+            out.append("\\\\")
+        elif ch == '"':
+            out.append('\\"')
+        elif ch == "\n":
+            out.append("\\n")
+        elif ch == "\t":
+            out.append("\\t")
+        elif 32 <= ord(ch) < 127:
+            out.append(ch)
         else:
-            if node.orelse:
-                raise ValueError("cascade ends with a non-empty else branch")
-            break
-    if len(out) < 20:
-        raise ValueError(f"cascade has only {len(out)} branches")
+            out.append("\\u{%x}" % ord(ch))
+    return '"' + "".join(out) + '"'
+
+
+def lean_char(ch):
+    if ch == "'":
+        return "'\\''"
+    if ch == "\\":
+        return "'\\\\'"
+    if 32 <= ord(ch) < 127:
+        return "'%s'" % ch
+    return "Char.ofNat %d" % ord(ch)
+
+
+def lc(s):
+    """a `Str` (= List Char) literal"""
+    return "[" + ", ".join(lean_char(c) for c in s) + "]"
+
+
+def llist(xs, f=lc):
+    return "[" + ", ".join(f(x) for x in xs) + "]"
+
+
+def lopt(x, f=lc):
+    return "none" if x is None else "(some %s)" % f(x)
+
+
+def lbool(b):
+    return "true" if b else "false"
+
+
+def sources():
+    src = (common.REPO / "ford" / "sourceform.py").read_text()
+    return src, ast.parse(src)
+
+
+def _class(tree, name):
+    return next(n for n in tree.body if isinstance(n, ast.ClassDef) and n.name == name)
+
+
+WORD = re.compile(r"[A-Za-z_]+(\([a-z]*\))?")
+
+
+def vocabulary():
+    """every keyword-like string constant of ford/sourceform.py (`public`, `intent(in)`, `external`, ...: wherever it
+    stands - in a comparison, a list, a module-level table) and every literal word of its compiled regular expressions
+    (`asynchronous`, `volatile`, `extends`, ...), lower-cased.  The behaviour probes use these words as inputs, so a rewrite
+    that makes the code treat one more word specially (or one fewer) is met by a probe with exactly that word."""
+    common.import_ford()
+    import ford.sourceform as sf
+
+    _, tree = sources()
+    words = set()
+    for n in ast.walk(tree):
+        if isinstance(n, ast.Constant) and isinstance(n.value, str) and len(n.value) <= 16 and WORD.fullmatch(n.value):
+            words.add(n.value.lower())
+    holders = [sf] + [c for c in vars(sf).values() if isinstance(c, type) and c.__module__ == sf.__name__]
+    for h in holders:
+        for v in vars(h).values():
+            if isinstance(v, re.Pattern):
+                try:
+                    ws, _ = _literal_words(v.pattern, v.flags)
+                except Exception:  # noqa
+                    continue
+                words |= {w.lower() for w in ws if WORD.fullmatch(w) and len(w) <= 16}
+    return sorted(words)
+
+
+def _method(cls, name):
+    return next(n for n in cls.body if isinstance(n, ast.FunctionDef) and n.name == name)
+
+
+# ---------------------------------------------------------------------------------------------------------
+# regular expressions: compiled object -> canonical (pattern, flags)
+# ---------------------------------------------------------------------------------------------------------
+
+IGNORED_FLAGS = re.VERBOSE | re.UNICODE
+
+
+def flag_names(flags):
+    return [f.name for f in re.RegexFlag if f.value and f in re.RegexFlag(flags & ~IGNORED_FLAGS) and f.name]
+
+
+def parse_tree(pattern, flags):
+    p = sre_parse.parse(pattern, flags)
+    return repr(p), p.state.groups, sorted(p.state.groupdict.items()), (p.state.flags & ~IGNORED_FLAGS)
+
+
+def _literal_words(pattern, flags):
+    """maximal runs of literal characters of the pattern, and every literal character"""
+    words, chars = set(), set()
+
+    def walk(items):
+        run = ""
+        for op, arg in items:
+            if op is sre_parse.LITERAL:
+                run += chr(arg)
+                chars.add(chr(arg))
+                continue
+            if len(run) > 1:
+                words.add(run)
+            run = ""
+            if op is sre_parse.IN:
+                for o2, a2 in arg:
+                    if o2 is sre_parse.LITERAL:
+                        chars.add(chr(a2))
+                    elif o2 is sre_parse.RANGE:
+                        chars.add(chr(a2[0]))
+            elif op is sre_parse.NOT_LITERAL:
+                chars.add(chr(arg))
+            elif op is sre_parse.BRANCH:
+                for alt in arg[1]:
+                    walk(alt)
+            elif op in (sre_parse.MAX_REPEAT, sre_parse.MIN_REPEAT):
+                walk(arg[2])
+            elif op is sre_parse.SUBPATTERN:
+                walk(arg[3])
+            elif op in (sre_parse.ASSERT, sre_parse.ASSERT_NOT):
+                walk(arg[1])
+            elif getattr(sre_parse, "ATOMIC_GROUP", None) is not None and op is sre_parse.ATOMIC_GROUP:
+                walk(arg)
+        if len(run) > 1:
+            words.add(run)
+
+    walk(sre_parse.parse(pattern, flags))
+    return words, chars
+
+
+def differential_corpus(pattern, flags, budget=60000):
+    """strings on which two spellings of one pattern must agree: every sequence of up to L tokens (the words of
+    the pattern in both letter cases, its literal characters, one representative of every character class that
+    matters to FORD's patterns - also a non-ASCII letter, digit and blank and the Kelvin sign, on which `\\w`, `\\d`,
+    `\\s` and IGNORECASE differ from their ASCII look-alikes), L as large as the budget allows, plus random longer
+    sequences"""
+    words, chars = _literal_words(pattern, flags)
+    alphabet = sorted(words | {w.upper() for w in words} | {w + "x" for w in words} | chars
+                      | set(" \tx1_,:()*='\"") | {"X", "\n", "::", "é", "\u0663", "\xa0", "\u212a"})
+    L = 1
+    while len(alphabet) ** (L + 1) <= budget and L < 6:
+        L += 1
+    out = [""]
+    for n in range(1, L + 1):
+        out += ["".join(t) for t in itertools.product(alphabet, repeat=n)]
+    rng = random.Random(20240501)
+    for _ in range(budget // 3):
+        out.append("".join(rng.choice(alphabet) for _ in range(rng.randint(L + 1, L + 6))))
     return out
 
 
-def regex_name(e):
-    """`self.X_RE.match(line)` / `.search(line)` possibly wrapped in a walrus -> X_RE"""
-    if isinstance(e, ast.NamedExpr):
-        e = e.value
-    if isinstance(e, ast.Call) and isinstance(e.func, ast.Attribute) and e.func.attr in ("match", "search"):
-        v = e.func.value
-        if isinstance(v, ast.Attribute) and isinstance(v.value, ast.Name) and v.value.id == "self":
-            return v.attr + "." + e.func.attr
+def _behaviour(rx, s):
+    m, f = rx.match(s), rx.search(s)
+    return (None if m is None else (m.span(), m.groups()), None if f is None else (f.span(), f.groups()))
+
+
+def same_meaning(pattern, flags, modelled_pattern, modelled_flags):
+    """'tree' / 'differential:<n>' when the compiled pattern means what the modelled one means, else None"""
+    try:
+        if parse_tree(pattern, flags) == parse_tree(modelled_pattern, modelled_flags):
+            return "tree"
+        a, b = re.compile(pattern, flags), re.compile(modelled_pattern, modelled_flags)
+    except re.error:
+        return None
+    if a.groups != b.groups or a.groupindex != b.groupindex:
+        return None
+    corpus = differential_corpus(modelled_pattern, modelled_flags)
+    for s in corpus:
+        if _behaviour(a, s) != _behaviour(b, s):
+            return None
+    return "differential:%d" % len(corpus)
+
+
+def canon_regex(rx, modelled, flag_style="re."):
+    """(pattern text, flags text, how) of a compiled pattern `rx` (or a (pattern, flags) pair): the modelled text
+    when `rx` means the same, its own text otherwise"""
+    pattern, flags = (rx.pattern, rx.flags) if hasattr(rx, "pattern") else rx
+    mp, mf = modelled
+    how = same_meaning(pattern, flags, mp, mf)
+    if how is None:
+        names = flag_names(flags)
+        if flags & re.VERBOSE:
+            names.append("VERBOSE")
+        return pattern, _flags_text(names, flag_style), "differs from the modelled pattern"
+    return mp, _flags_text(flag_names(mf), flag_style), how
+
+
+def _flags_text(names, style):
+    if style == "re.":
+        return " | ".join("re." + n for n in names)
+    return "+".join(names)
+
+
+I = re.IGNORECASE
+# the patterns the scanners of the Lean models were written for (the same texts stand in Props/C01.lean)
+MODELLED = {
+    "QUOTES_RE": (r"\"([^\"]|\"\")*\"|'([^']|'')*'", I),
+    "NBSP_RE": (r" (?= )|(?<= ) ", 0),
+    "DIM_RE": (r"^\w+\s*(\(.*\))\s*$", 0),
+    "TYPE_RE": (r"^type(?:\s+|\s*(,.*)?::\s*)((?!(?:is\s*\())\w+)\s*(\([^()]*\))?\s*$", I),
+    "EXTENDS_RE": (r"extends\s*\(\s*(?P<base>[^()\s]+)\s*\)", I),
+    "SPLIT_RE": (r"\s*,\s*", I),
+    "VARIABLE_RE": (r"^(integer|real|double\s*precision|character|complex|double\s*complex|logical|type(?!\s+is)|"
+                    r"class(?!\s+is|\s+default)|procedure|enumerator)\s*((?:\(|\s\w|[:,*]).*)$", I),
+}
+
+
+# ---------------------------------------------------------------------------------------------------------
+# the cascade (structure): alpha-renamed, helpers inlined
+# ---------------------------------------------------------------------------------------------------------
+
+def _chain(node):
+    out = []
+    while True:
+        out.append(node)
+        if len(node.orelse) == 1 and isinstance(node.orelse[0], ast.If):
+            node = node.orelse[0]
+        else:
+            return out, node.orelse
+
+
+def _bound_names(fn):
+    names = {a.arg for a in fn.args.args + fn.args.kwonlyargs + fn.args.posonlyargs}
+    for n in ast.walk(fn):
+        if isinstance(n, ast.Name) and isinstance(n.ctx, ast.Store):
+            names.add(n.id)
+    names.discard("self")
+    return names
+
+
+def _single_return(fn):
+    body = list(fn.body)
+    if body and isinstance(body[0], ast.Expr) and isinstance(body[0].value, ast.Constant) and isinstance(body[0].value.value, str):
+        body = body[1:]
+    if len(body) == 1 and isinstance(body[0], ast.Return) and body[0].value is not None:
+        return body[0].value
     return None
 
 
-def describe(test):
-    if isinstance(test, ast.BoolOp) and isinstance(test.op, ast.And):
-        head, rest = test.values[0], test.values[1:]
-        name = regex_name(head) or ast.unparse(head)
-        return (name, " and ".join(ast.unparse(r) for r in rest))
-    if isinstance(test, ast.BoolOp) and isinstance(test.op, ast.Or):
-        names = [regex_name(v) or ast.unparse(v) for v in test.values]
-        return (" or ".join(names), "")
-    return (regex_name(test) or ast.unparse(test), "")
+class _Subst(ast.NodeTransformer):
+    def __init__(self, mapping):
+        self.mapping = mapping
+
+    def visit_Name(self, node):
+        if node.id in self.mapping:
+            return copy.deepcopy(self.mapping[node.id])
+        return node
 
 
-def lean_str(s):
-    return '"' + s.replace("\\", "\\\\").replace('"', '\\"') + '"'
+def inline_helpers(expr, tree, cls, depth=0):
+    """calls of one-line helpers (`self._is_x(line)`, `_is_x(line)`: a function whose body is one `return <expr>`)
+    are replaced by that expression with the arguments substituted"""
+    if depth > 3:
+        return expr
+    methods = {n.name: n for n in cls.body if isinstance(n, ast.FunctionDef)} if cls is not None else {}
+    funcs = {n.name: n for n in tree.body if isinstance(n, ast.FunctionDef)}
+
+    class T(ast.NodeTransformer):
+        def visit_Call(self, node):
+            self.generic_visit(node)
+            fn, skip_self = None, False
+            if isinstance(node.func, ast.Attribute) and isinstance(node.func.value, ast.Name) and node.func.value.id == "self":
+                fn, skip_self = methods.get(node.func.attr), True
+            elif isinstance(node.func, ast.Name):
+                fn = funcs.get(node.func.id)
+            if fn is None or node.keywords:
+                return node
+            ret = _single_return(fn)
+            params = [a.arg for a in fn.args.args]
+            if skip_self and params and params[0] in ("self", "cls"):
+                params = params[1:]
+            if ret is None or len(params) != len(node.args) or fn.args.vararg or fn.args.kwarg:
+                return node
+            new = _Subst(dict(zip(params, node.args))).visit(copy.deepcopy(ret))
+            return inline_helpers(new, tree, cls, depth + 1)
+
+    return T().visit(copy.deepcopy(expr))
 
 
-def translate():
-    casc = cascade()
-    lines = ["/- GENERATED by translate/c01.py from ford/sourceform.py - do not edit -/",
-             "namespace Ford.Generated.C01", "",
-             "/-- (branch test, extra guard) in source order -/",
-             "def cascade : List (String × String) := ["]
-    lines += ["  (%s, %s)%s" % (lean_str(a), lean_str(b), "," if i < len(casc) - 1 else "") for i, (a, b) in enumerate(casc)]
-    lines += ["]", "", "end Ford.Generated.C01", ""]
-    common.write_if_changed(common.LEAN / "FordModel" / "Generated" / "C01.lean", "\n".join(lines))
-    return casc
+class _Alpha(ast.NodeTransformer):
+    """bound names -> v1, v2, ... in order of first occurrence (shared map); constant containers of `in` tests are
+    written as a sorted tuple; the regular-expression test `self.X_RE.match(<anything>)`, with or without a walrus,
+    becomes the name `X_RE.match`"""
+
+    def __init__(self, bound, mapping):
+        self.bound, self.mapping = bound, mapping
+
+    def visit_NamedExpr(self, node):
+        r = _regex_call(node.value)
+        if r is not None:
+            self.mapping.setdefault(node.target.id, "v%d" % (len(self.mapping) + 1))
+            return ast.Name(id=r, ctx=ast.Load())
+        return self.generic_visit(node)
+
+    def visit_Call(self, node):
+        r = _regex_call(node)
+        if r is not None:
+            return ast.Name(id=r, ctx=ast.Load())
+        return self.generic_visit(node)
+
+    def visit_Name(self, node):
+        if node.id in self.bound:
+            return ast.Name(id=self.mapping.setdefault(node.id, "v%d" % (len(self.mapping) + 1)), ctx=node.ctx)
+        return node
+
+    def visit_Compare(self, node):
+        node = self.generic_visit(node)
+        for i, (op, c) in enumerate(zip(node.ops, node.comparators)):
+            if isinstance(op, (ast.In, ast.NotIn)) and isinstance(c, (ast.List, ast.Tuple, ast.Set)) \
+                    and all(isinstance(e, ast.Constant) for e in c.elts):
+                node.comparators[i] = ast.Tuple(elts=sorted(c.elts, key=lambda e: repr(e.value)), ctx=ast.Load())
+        return node
 
 
-if __name__ == "__main__":
-    for c in translate():
-        print(c)
+def _regex_call(e):
+    """`self.X_RE.match(..)` / `.search(..)` (also `type(self).X_RE`, `cls.X_RE`, `FortranContainer.X_RE`) -> `X_RE.match`"""
+    if isinstance(e, ast.Call) and isinstance(e.func, ast.Attribute) and e.func.attr in ("match", "search", "fullmatch"):
+        v = e.func.value
+        if isinstance(v, ast.Attribute) and v.attr.endswith("_RE"):
+            return v.attr + "." + e.func.attr
+        if isinstance(v, ast.Name) and v.id.endswith("_RE"):
+            return v.id + "." + e.func.attr
+    return None
 
 
-# ---------------------------------------------------------------------------
-# hasattr table: which list attributes each container class defines
-# ---------------------------------------------------------------------------
+def cascade():
+    _, tree = sources()
+    cls = _class(tree, "FortranContainer")
+    init = _method(cls, "__init__")
+    best = []
+    for loop in [n for n in ast.walk(init) if isinstance(n, ast.For)]:
+        for st in loop.body:
+            if isinstance(st, ast.If):
+                ch, tail = _chain(st)
+                if len(ch) > len(best):
+                    best, best_tail = ch, tail
+    if len(best) < 20:
+        raise ValueError("the statement cascade (an if/elif chain of at least 20 branches inside a loop of "
+                         "FortranContainer.__init__) was not found")
+    if best_tail:
+        raise ValueError("cascade ends with a non-empty else branch")
+    bound, mapping = _bound_names(init), {}
+    out = []
+    for node in best:
+        test = inline_helpers(node.test, tree, cls)
+        alpha = _Alpha(bound, mapping)
+        if isinstance(test, ast.BoolOp) and isinstance(test.op, ast.And):
+            # the conjunct that asks a regular expression is the head, wherever it stands (`v3 == 0 and X_RE.match(..)`
+            # decides the same branch as `X_RE.match(..) and v3 == 0`); the other conjuncts keep their order
+            def asks_regex(v):
+                return _regex_call(v.value if isinstance(v, ast.NamedExpr) else v) is not None
+            k = next((i for i, v in enumerate(test.values) if asks_regex(v)), 0)
+            values = [test.values[k]] + test.values[:k] + test.values[k + 1:]
+            parts = [ast.unparse(alpha.visit(copy.deepcopy(v))) for v in values]
+            out.append((parts[0], " and ".join(parts[1:])))
+        elif isinstance(test, ast.BoolOp) and isinstance(test.op, ast.Or):
+            out.append((" or ".join(ast.unparse(alpha.visit(copy.deepcopy(v))) for v in test.values), ""))
+        else:
+            out.append((ast.unparse(alpha.visit(copy.deepcopy(test))), ""))
+    return out
+
+
+# ---------------------------------------------------------------------------------------------------------
+# objects: what `hasattr(self, "<list>")` sees, `_can_have_contains`
+# ---------------------------------------------------------------------------------------------------------
+
 ATTRS = ["modules", "submodules", "programs", "blockdata", "subroutines", "functions", "types", "interfaces",
          "absinterfaces", "enums", "boundprocs", "finalprocs", "variables", "uses", "calls", "common", "namelists",
          "modprocedures", "modprocs", "attr_dict"]
@@ -86,359 +429,452 @@ CLASSES = {"file": "FortranSourceFile", "module": "FortranModule", "submodule": 
            "modprocImpl": "FortranModuleProcedureImplementation", "type": "FortranType",
            "interface": "FortranInterface", "enum": "FortranEnum", "blockdata": "FortranBlockData"}
 
+HASATTR_PROBE = """module probe_m
+  type probe_t
+    integer :: c
+  contains
+    procedure :: b => probe_s
+  end type probe_t
+  interface probe_g
+    module procedure probe_s
+  end interface probe_g
+  interface
+    module subroutine probe_sep()
+    end subroutine probe_sep
+  end interface
+  enum, bind(c)
+    enumerator :: probe_e
+  end enum
+contains
+  subroutine probe_s(x)
+    class(probe_t) :: x
+  end subroutine probe_s
+  function probe_f()
+  end function probe_f
+end module probe_m
+submodule (probe_m) probe_sm
+contains
+  module procedure probe_sep
+  end procedure probe_sep
+end submodule probe_sm
+program probe_p
+end program probe_p
+block data probe_bd
+end block data probe_bd
+"""
+
 
 def hasattr_table():
-    src = (common.REPO / "ford" / "sourceform.py").read_text()
-    tree = ast.parse(src)
-    classes = {n.name: n for n in tree.body if isinstance(n, ast.ClassDef)}
+    """list attributes of a live object of every container class at the moment its END statement is met (the
+    cascade asks `hasattr(self, ..)` for every statement in between); the file object after its last statement"""
+    common.import_ford()
+    from ford.settings import ProjectSettings
+    from ford.sourceform import FortranSourceFile
 
-    def mro(name):
-        out = [name]
-        c = classes[name]
-        for b in c.bases:
-            bn = ast.unparse(b)
-            if bn in classes:
-                out += mro(bn)
-        return out
+    seen = {}
 
-    def find(name, method, after=None):
-        chain = mro(name)
-        if after is not None:
-            chain = chain[chain.index(after) + 1:]
-        for cn in chain:
-            for n in classes[cn].body:
-                if isinstance(n, ast.FunctionDef) and n.name == method:
-                    return cn, n
-        return None, None
+    def prof(frame, event, arg):
+        if event == "call" and frame.f_code.co_name == "_cleanup":
+            obj = frame.f_locals.get("self")
+            if obj is not None:
+                key = type(obj).__name__
+                attrs = tuple(a for a in ATTRS if hasattr(obj, a))
+                if id(obj) not in seen.setdefault("ids", set()):
+                    seen["ids"].add(id(obj))
+                    if seen.setdefault(key, attrs) != attrs:
+                        raise ValueError(f"two {key} objects differ in their list attributes")
+        return None
 
-    def collect(cls, method, attrs, after=None, depth=0):
-        owner, fn = find(cls, method, after)
-        if fn is None or depth > 6:
-            return
-        for node in ast.walk(fn):
-            pass
-        # ordered traversal
-        def visit(n):
-            if isinstance(n, (ast.Assign, ast.AnnAssign)):
-                targets = n.targets if isinstance(n, ast.Assign) else [n.target]
-                for t in targets:
-                    if isinstance(t, ast.Attribute) and isinstance(t.value, ast.Name) and t.value.id == "self":
-                        attrs.add(t.attr)
-            if isinstance(n, ast.Delete):
-                for t in n.targets:
-                    if isinstance(t, ast.Attribute) and isinstance(t.value, ast.Name) and t.value.id == "self":
-                        attrs.discard(t.attr)
-            if isinstance(n, ast.Call) and isinstance(n.func, ast.Attribute):
-                v = n.func.value
-                if isinstance(v, ast.Name) and v.id == "self" and n.func.attr.startswith("_") and n.func.attr != method:
-                    collect(cls, n.func.attr, attrs, None, depth + 1)
-                if isinstance(v, ast.Call) and ast.unparse(v.func) == "super":
-                    collect(cls, n.func.attr, attrs, owner, depth + 1)
-            for ch in ast.iter_child_nodes(n):
-                visit(ch)
-        for stmt in fn.body:
-            visit(stmt)
-
+    with common.scratch_dir("ford-c01-hasattr-") as d:
+        p = d / "probe.f90"
+        p.write_text(HASATTR_PROBE)
+        old = sys.getprofile()
+        sys.setprofile(prof)
+        try:
+            with common.quiet():
+                fobj = FortranSourceFile(str(p), ProjectSettings())
+        finally:
+            sys.setprofile(old)
+    seen["FortranSourceFile"] = tuple(a for a in ATTRS if hasattr(fobj, a))
     table = {}
     for key, cname in CLASSES.items():
-        attrs = set()
-        collect(cname, "__init__" if cname == "FortranSourceFile" else "_initialize", attrs)
-        table[key] = sorted(a for a in attrs if a in ATTRS)
+        if cname not in seen:
+            raise ValueError(f"no object of class {cname} was observed while the probe file was read")
+        table[key] = sorted(seen[cname])
         if not table[key]:
             raise ValueError(f"no list attributes found for {cname}")
-    # _can_have_contains tuple
-    chc = next(n for n in tree.body if isinstance(n, ast.Assign) and ast.unparse(n.targets[0]) == "_can_have_contains")
-    contains_classes = [ast.unparse(e) for e in chc.value.elts]
-    return table, contains_classes
+    import ford.sourceform as sf
+    return table, [c.__name__ for c in sf._can_have_contains]
 
 
-# ---------------------------------------------------------------------------
-# literal masking: QUOTES_RE / NBSP_RE and the two loops FordModel/Mask.lean mirrors
-# ---------------------------------------------------------------------------
+# ---------------------------------------------------------------------------------------------------------
+# behaviour probes
+# ---------------------------------------------------------------------------------------------------------
 
-def _regex_source(tree, name):
-    for n in tree.body:
-        if isinstance(n, ast.Assign) and len(n.targets) == 1 and ast.unparse(n.targets[0]) == name:
-            call = n.value
-            if isinstance(call, ast.Call) and ast.unparse(call.func) == "re.compile" and call.args \
-                    and isinstance(call.args[0], ast.Constant) and isinstance(call.args[0].value, str):
-                return call.args[0].value
-    raise ValueError(f"{name} = re.compile(<literal>) not found")
+MASK_PROBES = [
+    "x", "x = 'a'", 'x = "a"', "x = 'a' // \"b\"", 'bits(2) = ["1", "0"]', "c = '0' // \"0\"//\"abc\"", "s = 'it''s'",
+    's = "say ""hi"""', "s = '\"'", 's = "\'"', "a = '', b = \"\"", "v = (/ \"2\",\"0\",\"3\" /)", "t = 'a'\"b\"",
+    "u = 'open", 'w = "0" // "0" // "1" // \'2\'', "k = 'x y', m = '!b;c&'", "q = ''''", "z = 'a' 'b'", "n = \"\"\"\"",
+    "e = 'a''", "f = \"a\" // 'b' // \"c\" // 'd' // \"e\" // 'f' // \"g\" // 'h' // \"i\" // 'j' // \"k\" // 'l'",
+]
 
+RESTORE_PROBES = [
+    ("n", []), ('"0"', ["'abc'"]), ('"0"//"1"', ["'a'", '"b"']), ('"1"//"0"', ["'a'", '"b"']), ('"0"//"0"', ["'x  y'"]),
+    ('["0","1","2"]'.replace(",", "//"), ['"1"', '"0"', "'2'"]), ('"2"', ["'a'", "'b'"]), ('"a"', ["'a'"]), ('""', ["'a'"]),
+    ('"0"', ["abc"]), ('"0"', ["'a\\b'"]), ('"0"', ["'\\1'"]), ("'0'", ["\"q\""]), ('"01"', ["'a'", "'b'"]),
+    ('"0"//x//"0"', ["' lead'"]), ('"0"', ["'trail  '"]), ('"0"', ["'\"0\"'"]), ('"1"', ['"0"', "'\"0\"'"]),
+    ('x"0"', ["''"]), ('"0"', ["'"]), ('"10"', ["'a'"] * 11), ('"0""1"', ["'a'", "'b'"]),
+]
 
-def _is_quote_loop(n, var):
-    return (isinstance(n, ast.While) and isinstance(n.test, ast.NamedExpr)
-            and ast.unparse(n.test.value) == f"QUOTES_RE.search({var}[search_from:])")
+ENTITY_PROBES = [
+    "x", "x(3)", "x(2,3)", "c*10", "c*(10)", "buf*(*)", "line*(80)", "w(3)*4", "w(3)*(4)", "q(n)*(2*n)", "a[*]", "b(2)[*]",
+    "b(2)[2,*]", "d(n*2)", "e[n*2,*]", "s*(:)", "f(3)[*]*8", "g[*]*(*)", "h(*)", "(x)", "*x", "[x]", "(a)*2", "*(*)", "", "k*",
+    "m(", "p*(n(1))", "r[s(1),*]", "t*2(3)",
+]
 
-
-def mask_tables():
-    src = (common.REPO / "ford" / "sourceform.py").read_text()
-    tree = ast.parse(src)
-    cls = next(n for n in tree.body if isinstance(n, ast.ClassDef) and n.name == "FortranContainer")
-    init = next(n for n in cls.body if isinstance(n, ast.FunctionDef) and n.name == "__init__")
-    loop = next(n for n in init.body if isinstance(n, ast.For) and ast.unparse(n.iter) == "source")
-    idx = [i for i, n in enumerate(loop.body) if _is_quote_loop(n, "line")]
-    if len(idx) != 1 or idx[0] < 2:
-        raise ValueError("masking loop `while quote := QUOTES_RE.search(line[search_from:])` not found in FortranContainer.__init__")
-    i = idx[0]
-    # everything between the masking loop and the cascade must not touch `line` except the documented lower-casing
-    mask_loop = "\n".join(ast.unparse(n) for n in loop.body[i - 2:i + 1]).split("\n")
-    ltv = next(n for n in tree.body if isinstance(n, ast.FunctionDef) and n.name == "line_to_variables")
-    loops = [n for n in ast.walk(ltv) if _is_quote_loop(n, "initial")]
-    if len(loops) != 1:
-        raise ValueError("restoring loop `while quote := QUOTES_RE.search(initial[search_from:])` not found in line_to_variables")
-    restore_loop = ast.unparse(loops[0]).split("\n")
-    return {"quotesRe": _regex_source(tree, "QUOTES_RE"), "nbspRe": _regex_source(tree, "NBSP_RE"),
-            "maskLoop": mask_loop, "restoreLoop": restore_loop}
+# (dummy argument names, entities of the declarations in the body, in order)
+ARG_PROBES = [
+    (["buf", "n", "line"], ["buf*(*)", "line*(80)", "n", "tmp*(80)", "words(10)*8"]),
+    (["a", "b"], ["b(3)", "a"]), (["A", "b"], ["a(:)", "B*4"]), (["a", "zz"], ["a[*]", "loc(2)[*]"]),
+    (["x"], ["y", "z*2"]), ([], ["y(2)"]), (["p", "q"], []), (["c"], ["c(3)*4", "d*(*)"]),
+    (["s1", "s2"], ["S2*(*)", "t", "S1(n)*(n)"]),
+]
 
 
-_old_translate = translate
+class _Src:
+    """what `read_docstring` needs from a reader: no documentation follows"""
+
+    def __init__(self):
+        self.back = []
+
+    def __next__(self):
+        return "end module"
+
+    def __iter__(self):
+        return self
+
+    def pass_back(self, line):
+        self.back.append(line)
+
+
+def _holder(d):
+    import ford.sourceform as sf
+    from ford.settings import ProjectSettings
+
+    p = d / "holder.f90"
+    p.write_text("module holder\nend module holder\n")
+    with common.quiet():
+        return sf.FortranSourceFile(str(p), ProjectSettings()).modules[0]
+
+
+def mask_probes(ford, d):
+    """the real masking loop on one-statement files: [(line, ["ok", masked, *strings] | ["err", class])]"""
+    from harness import c01_mask
+
+    out = []
+    for payload in MASK_PROBES:
+        obs, why = c01_mask.impl_mask(ford, d / "mask_probe.f90", "integer :: " + payload + "\n")
+        if obs is None:
+            raise ValueError(f"masking probe {payload!r} cannot be observed: {why}")
+        line, masked, strs = obs
+        out.append((line, ["err", strs] if masked == "exc" else ["ok", masked] + list(strs)))
+    return out
+
+
+def restore_probes(ford, d):
+    import ford.sourceform as sf
+
+    parent = _holder(d)
+    out = []
+    for text, strs in RESTORE_PROBES:
+        parent.strings = list(strs)
+        try:
+            with common.quiet():
+                vs = sf.line_to_variables(_Src(), "integer :: x=" + text, "public", parent)
+            if len(vs) != 1 or vs[0].name != "x":
+                raise ValueError(f"restoring probe {text!r}: line_to_variables answered {[(v.name, v.initial) for v in vs]!r}")
+            res = ["ok", vs[0].initial or ""]
+        except (ValueError, IndexError, AttributeError) as e:
+            if isinstance(e, ValueError) and str(e).startswith("restoring probe"):
+                raise
+            res = ["err", type(e).__name__]
+        out.append((text, list(strs), res))
+    return out
+
+
+def ownership_probes(ford, d):
+    """who owns the attribute list of a variable (Attribs.lean: value semantics)"""
+    import ford.sourceform as sf
+
+    parent = _holder(d)
+    parent.strings = []
+    with common.quiet():
+        u, v = sf.line_to_variables(_Src(), "real, save :: u, v", "public", parent)
+        shared = u.attribs is v.attribs
+        u.attribs.append("target")
+        leak = "target" in v.attribs
+        given = ["save"]
+        w = sf.FortranVariable("w", "real", parent, given)
+        w.attribs.append("volatile")
+        d1 = sf.FortranVariable("d1", "real", parent)
+        d1.attribs.append("pointer")
+        d2 = sf.FortranVariable("d2", "real", parent)
+    return [("the entities of one declaration own different attribute lists", not shared and not leak),
+            ("a variable does not share the list it was constructed with", given == ["save"]),
+            ("two variables constructed without attributes do not share a list", d2.attribs == [])]
+
+
+def attr_probes(ford, d):
+    """specification parts (the generator of the `attrs` stream with fixed seeds + hand-written ones that visit every
+    branch of the mirrored statements) read by the real FortranSourceFile"""
+    from ford.settings import ProjectSettings
+    from ford.sourceform import FortranSourceFile
+    from harness import c01_attrs as ca
+
+    cases = [
+        ("module", [("D", "real", ["save"], [("u", "", None), ("v", "", None)]), ("A", "target", " :: ", "u"), ("A", "dimension", " ", "v(3)")]),
+        ("subroutine", [("D", "integer", ["INTENT( in out )", "OPTIONAL"], [("xa", "(3)", None)]), ("A", "Intent(In)", " ", "xa"),
+                        ("A", "public", " :: ", "xa"), ("A", "value", " ", "Xa")]),
+        ("module", [("D", "logical", ["Parameter", "private"], [("q", "", ".true.")]), ("D", "integer", [], [("n", "", None), ("kk", "", None)]),
+                    ("A", "PARAMETER", "", "( n = 3, kk=n+1 )"), ("A", "protected", " ", "kk")]),
+        ("module", [("D", "real", [], [("a", "", None), ("b", "", None), ("c", "", None)]), ("A", "target", " :: ", "a(3)"),
+                    ("A", "dimension", " ", "b (2)"), ("A", "allocatable", " :: ", "c(:), a"), ("A", "pointer", " ", "zz9")]),
+        ("program", [("D", "real", ["EXTERNAL"], [("f1", "", None)]), ("D", "real", ["external"], [("f2", "", None)]),
+                     ("D", "real", [], [("f3", "", None)]), ("A", "external", " ", "f3")]),
+        ("blockdata", [("D", "integer", ["save"], [("xa", "", None), ("xb", "(2)", None)]), ("A", "target", " ", "xa"),
+                       ("A", "Public", " ", "xa, xa"), ("A", "data", " ", "xa /1/")]),
+        ("function", [("D", "logical", [], [("q", "", None)]), ("A", "parameter", " ", "(q = n == 1)"), ("A", "bind(c,name=cname)", " :: ", "q")]),
+        ("module", [("D", "integer", ["dimension(pointer_n)", "codimension[*]"], [("w_1", "", None)]), ("A", "dimension", " ", "w_1(pointer_n)"),
+                    ("A", "volatile", "::", "W_1 , undeclared")]),
+        ("module", [("D", "integer", [], [("n", "", None)]), ("A", "parameter", " ", "(n)")]),
+        ("subroutine", [("A", "save", " ", "ye"), ("D", "real", ["intent (out)"], [("Ye", "", None), ("ZF", "", "1.0e0")]),
+                        ("A", "asynchronous", " :: ", "zf"), ("A", "INTENT( inout )", " ", "ZF")]),
+    ]
+    rng = random.Random(50001)
+    saved, ca.VOCAB = ca.VOCAB, []  # the fixed part of the probe list does not depend on the vocabulary
+    try:
+        cases += [ca.gen_attr_case(rng) for _ in range(30)]
+    finally:
+        ca.VOCAB = saved
+    # every keyword-like word of the source as an attribute of a declaration, and - where the real ATTRIB_RE takes it
+    # for the keyword of an attribute statement - as such a statement
+    import ford.sourceform as sf
+    for k, w in enumerate(vocabulary()):
+        unit = ("module", "subroutine", "blockdata", "program", "function")[k % 5]
+        spelled = w if k % 2 else w.upper()
+        cases.append((unit, [("D", "real", [spelled], [("xa", "(2)", None)])]))
+        rest = {"parameter": "(xa = 1)", "data": "xa /1/"}.get(w, "xa")
+        sep = "" if w == "parameter" else (" " if w == "data" else " :: ")
+        for spelled in (w, w.upper()):
+            m = sf.FortranContainer.ATTRIB_RE.match(spelled + sep + rest)
+            if m is not None and m.group(1) == spelled and m.group(2) == rest:
+                cases.append((unit, [("D", "real", [], [("xa", "", None)]), ("A", spelled, sep, rest)]))
+    cfg = ca.probe_cfg()
+    out = []
+    p = d / "attr_probe.f90"
+    for unit, stmts in cases:
+        p.write_text(ca.render_attr_case(unit, stmts))
+        try:
+            with common.quiet():
+                fobj = FortranSourceFile(str(p), ProjectSettings())
+            res = ("ok", ca.obs_vars(ca.unit_of(fobj, unit)))
+        except Exception as e:  # noqa
+            res = (type(e).__name__, [])
+        out.append((unit == "blockdata", stmts, res))
+    return cfg, out
+
+
+def type_probes(ford, d):
+    """statements at the place of a derived type definition inside a module, read by the real FortranSourceFile"""
+    from harness import c01_thead as th
+
+    stmts = ["type isotope", "TYPE  :: Is_Stable_t", "type, Extends( isotope ) ,PRIVATE , abstract::island", "type is (integer)",
+             "TYPE IS(isotope)", "type(isotope) :: x", "type pdt(k, n)", "type :: t ( k )", "type,public::a", "type, bind(c) :: b",
+             "type , EXTERNAL, Public :: c", "type,extends(a),extends(b)::d", "type ::", "type", "type t u", "type, :: e",
+             "type is_t", "Type ISO_DATE", "type :: is", "type is", "class is (t)", "type, abstract, private :: f", "type\tg",
+             "type,  xextends(q)y :: h", "type, extends() :: i", "type, a b :: j", "type :: k :: l"]
+    # every keyword-like word of the source as an attribute of the definition
+    for k, w in enumerate(vocabulary()):
+        stmts.append("type, %s :: vt" % w if k % 2 else "type,%s::vt" % w.upper())
+    stmts = [x for x in dict.fromkeys(stmts) if th.observable(x)]
+    rng = random.Random(50002)
+    n_random = len(stmts) + 35
+    saved, th.VOCAB = th.VOCAB, []
+    while len(stmts) < n_random:
+        kind, s = th.gen_stmt(rng)
+        s = s.strip()
+        if th.observable(s) and all(c == "\t" or 32 <= ord(c) < 127 for c in s) and s not in stmts:
+            stmts.append(s)
+    th.VOCAB = saved
+    out = []
+    for k, s in enumerate(stmts):
+        private = k % 3 == 1
+        im = th.impl_typestmt(ford, d / "type_probe.f90", s, private)
+        if im[0] == "some":
+            n = int(im[4])
+            res = {"name": im[1], "base": None if im[2] == "-" else im[2][1:], "permission": im[3], "attribs": im[5:5 + n],
+                   "parameters": im[5 + n:]}
+        elif im[0] == "many":
+            res = {"name": "<%s types>" % im[1], "base": None, "permission": "", "attribs": [], "parameters": []}
+        else:  # none, or the statement belongs to another branch and `end type` then closes the module
+            res = None
+        out.append(("private" if private else "public", s, res))
+    return out
+
+
+def entity_probes(ford, d):
+    import ford.sourceform as sf
+
+    parent = _holder(d)
+    out = []
+    for txt in ENTITY_PROBES:
+        with common.quiet():
+            v = sf.FortranVariable(txt, "character", parent)
+        out.append((txt, str(v.name), str(v.dimension)))
+    return out
+
+
+def arg_probes(ford, d):
+    from ford.settings import ProjectSettings
+    from ford.sourceform import FortranSourceFile
+
+    out = []
+    p = d / "arg_probe.f90"
+    for args, ents in ARG_PROBES:
+        text = "subroutine probe_s(%s)\n" % ", ".join(args) + "".join("  character %s\n" % e for e in ents) + "end subroutine probe_s\n"
+        p.write_text(text)
+        with common.quiet():
+            s = FortranSourceFile(str(p), ProjectSettings()).subroutines[0]
+        res_args = []
+        for a in s.args:
+            # a declared argument keeps the object its declaration made (it has a `dimension` from the entity text and
+            # the declared type); an undeclared one is a fresh implicitly typed variable
+            if getattr(a, "vartype", None) == "character":
+                res_args.append(("declared", str(a.name), str(a.dimension)))
+            else:
+                res_args.append(("implicit", str(getattr(a, "name", a)), ""))
+        out.append((args, ents, res_args, [(str(v.name), str(v.dimension)) for v in s.variables]))
+    return out
+
+
+# ---------------------------------------------------------------------------------------------------------
+# patterns
+# ---------------------------------------------------------------------------------------------------------
+
+def pattern_tables(ford, d):
+    import ford.sourceform as sf
+    from ford.settings import ProjectSettings
+
+    p = d / "varre.f90"
+    p.write_text("module m\nend module m\n")
+    with common.quiet():
+        variable_re = sf.FortranSourceFile(str(p), ProjectSettings()).VARIABLE_RE
+    split_re = getattr(sf.FortranType, "SPLIT_RE", None) or sf.FortranBase.SPLIT_RE
+    t = {
+        "quotesRe": canon_regex(sf.QUOTES_RE, MODELLED["QUOTES_RE"]),
+        "nbspRe": canon_regex(sf.NBSP_RE, MODELLED["NBSP_RE"]),
+        "dimRe": canon_regex(sf.DIM_RE, MODELLED["DIM_RE"]),
+        "typeRe": canon_regex(sf.FortranContainer.TYPE_RE, MODELLED["TYPE_RE"]),
+        "extendsRe": canon_regex(sf.EXTENDS_RE, MODELLED["EXTENDS_RE"]),
+        "splitRe": canon_regex(split_re, MODELLED["SPLIT_RE"]),
+        "variableRe": canon_regex(variable_re, MODELLED["VARIABLE_RE"]),
+    }
+    return t
+
+
+# ---------------------------------------------------------------------------------------------------------
+# writing Generated/C01.lean
+# ---------------------------------------------------------------------------------------------------------
+
+# how each compiled pattern was found to mean the modelled one in the last run (`tree` / `differential:<n>`), for the evidence
+REGEX_HOW: dict = {}
+
+
+def _items(rows):
+    return ["  %s%s" % (r, "," if i < len(rows) - 1 else "") for i, r in enumerate(rows)]
+
+
+def _stmt(s):
+    if s[0] == "D":
+        _, typ, attrs, ents = s
+        return ".decl %s %s" % (llist(attrs), llist(ents, lambda e: "⟨%s, %s, %s⟩" % (lc(e[0]), lc(e[1]), lopt(e[2]))))
+    _, kw, sep, rest = s
+    return ".attr %s %s" % (lc(kw), lc(rest))
+
+
+def _var(v):
+    name, attribs, dim, intent, optional, perm, param, initial = v
+    return "⟨%s, %s, %s, %s, %s, %s, %s, %s⟩" % (lc(name), llist(attribs), lc(dim), lc(intent), lbool(optional), lc(perm),
+                                                 lbool(param), lopt(initial))
 
 
 def translate():
+    ford = common.import_ford()
     casc = cascade()
     table, chc = hasattr_table()
-    lines = ["/- GENERATED by translate/c01.py from ford/sourceform.py - do not edit -/",
-             "namespace Ford.Generated.C01", "",
-             "/-- (branch test, extra guard) of the cascade in FortranContainer.__init__, in source order -/",
-             "def cascade : List (String × String) := ["]
-    lines += ["  (%s, %s)%s" % (lean_str(a), lean_str(b), "," if i < len(casc) - 1 else "") for i, (a, b) in enumerate(casc)]
-    lines += ["]", "", "/-- container class -> list attributes its initialiser defines (what `hasattr` sees) -/",
-              "def hasattrTable : List (String × List String) := ["]
-    items = list(table.items())
-    lines += ["  (%s, [%s])%s" % (lean_str(k), ", ".join(lean_str(a) for a in v), "," if i < len(items) - 1 else "")
-              for i, (k, v) in enumerate(items)]
-    lines += ["]", "", "/-- the classes listed in `_can_have_contains` -/",
-              "def canHaveContains : List String := [%s]" % ", ".join(lean_str(c) for c in chc), ""]
-    mt = mask_tables()
-    lines += ["/-- source of `QUOTES_RE` -/", "def quotesRe : String := %s" % lean_str(mt["quotesRe"]), "",
-              "/-- source of `NBSP_RE` -/", "def nbspRe : String := %s" % lean_str(mt["nbspRe"]), "",
-              "/-- the literal-masking statements of FortranContainer.__init__ (ast.unparse, one line per entry) -/",
-              "def maskLoop : List String := ["]
-    lines += ["  %s%s" % (lean_str(x), "," if i < len(mt["maskLoop"]) - 1 else "") for i, x in enumerate(mt["maskLoop"])]
-    lines += ["]", "", "/-- the literal-restoring loop of line_to_variables (ast.unparse, one line per entry) -/",
-              "def restoreLoop : List String := ["]
-    lines += ["  %s%s" % (lean_str(x), "," if i < len(mt["restoreLoop"]) - 1 else "") for i, x in enumerate(mt["restoreLoop"])]
-    lines += ["]", "", "end Ford.Generated.C01", ""]
-    common.write_if_changed(common.LEAN / "FordModel" / "Generated" / "C01.lean", "\n".join(lines))
+    with common.scratch_dir("ford-c01-translate-") as d:
+        pats = pattern_tables(ford, d)
+        mk = mask_probes(ford, d)
+        rs = restore_probes(ford, d)
+        own = ownership_probes(ford, d)
+        cfg, at = attr_probes(ford, d)
+        tp = type_probes(ford, d)
+        en = entity_probes(ford, d)
+        ar = arg_probes(ford, d)
+    L = ["/- GENERATED by translate/c01.py from the working tree of FORD (structure by ast, objects / patterns / behaviour",
+         "   by running the real code on fixed probes) - do not edit -/",
+         "import FordModel.Attribs", "import FordModel.TypeHead", "import FordModel.Entity",
+         "namespace Ford.Generated.C01", "open Ford", "",
+         "/-- (branch test, extra guard) of the cascade in FortranContainer.__init__, in source order; local variables",
+         "    alpha-renamed in order of first use, one-line helpers inlined -/",
+         "def cascade : List (String × String) := ["]
+    L += _items(["(%s, %s)" % (lean_str(a), lean_str(b)) for a, b in casc])
+    L += ["]", "", "/-- container class -> the list attributes a live object has while its statements are read (what `hasattr` sees) -/",
+          "def hasattrTable : List (String × List String) := ["]
+    L += _items(["(%s, [%s])" % (lean_str(k), ", ".join(lean_str(a) for a in v)) for k, v in table.items()])
+    L += ["]", "", "/-- the classes in the run-time value of `_can_have_contains` -/",
+          "def canHaveContains : List String := [%s]" % ", ".join(lean_str(c) for c in chc), ""]
+    docs = {"quotesRe": "QUOTES_RE", "nbspRe": "NBSP_RE", "dimRe": "DIM_RE", "typeRe": "FortranContainer.TYPE_RE", "extendsRe": "EXTENDS_RE",
+            "splitRe": "SPLIT_RE", "variableRe": "VARIABLE_RE of a source file without extra_vartypes"}
+    for k, (pat, flags, how) in pats.items():
+        REGEX_HOW[docs[k]] = how
+        L += ["/-- compiled `%s`: [pattern, flags] - the modelled text when the compiled pattern means the same -/" % docs[k],
+              "def %s : List String := [%s, %s]" % (k, lean_str(pat), lean_str(flags)), ""]
+    L += ["/-- the masking loop of FortranContainer.__init__ on one-statement files: (line, ok :: masked line :: strings | err :: class) -/",
+          "def maskProbes : List (Str × List Str) := ["]
+    L += _items(["(%s, %s)" % (lc(a), llist(b)) for a, b in mk])
+    L += ["]", "", "/-- the restoring loop of line_to_variables: (initial value as masked, parent.strings, [ok, initial] | [err, class]) -/",
+          "def restoreProbes : List (Str × List Str × List Str) := ["]
+    L += _items(["(%s, %s, %s)" % (lc(a), llist(b), llist(c)) for a, b, c in rs])
+    L += ["]", "", "/-- who owns the attribute list of a variable (observed on live objects) -/",
+          "def attribsOwnership : List (String × Bool) := ["]
+    L += _items(["(%s, %s)" % (lean_str(a), lbool(b)) for a, b in own])
+    L += ["]", "", "/-- the variant of the four repairable places of the attribute bookkeeping, decided by probing (harness/c01_attrs.probe_cfg) -/",
+          "def attrCfg : Attribs.Cfg := ⟨%s⟩" % ", ".join(lbool(x == "1") for x in cfg), "",
+          "/-- specification parts read by the real FortranSourceFile: (block data?, statements, (ok | exception class, variables of the unit)) -/",
+          "def attrProbes : List (Bool × List Attribs.Stmt × Str × List Attribs.Var) := ["]
+    L += _items(["(%s, %s, %s, %s)" % (lbool(bd), llist(stmts, _stmt), lc(res[0]), llist(res[1], _var)) for bd, stmts, res in at])
+    L += ["]", "", "/-- a statement at the place of a type definition in a module with the given default accessibility: the FortranType recorded -/",
+          "def typeProbes : List (Str × Str × Option TypeHead.TypeInfo) := ["]
+    L += _items(["(%s, %s, %s)" % (lc(inh), lc(s), "none" if r is None else "some ⟨%s, %s, %s, %s, %s⟩" % (
+        lc(r["name"]), lopt(r["base"]), llist(r["attribs"]), lc(r["permission"]), llist(r["parameters"]))) for inh, s, r in tp])
+    L += ["]", "", "/-- FortranVariable(<entity text>, ..): (text, name, dimension) -/",
+          "def entityProbes : List (Str × Entity.Var) := ["]
+    L += _items(["(%s, ⟨%s, %s⟩)" % (lc(t), lc(n), lc(dm)) for t, n, dm in en])
+    L += ["]", "", "/-- a subroutine with these dummy arguments and these declared entities: (args, entities, self.args, self.variables) -/",
+          "def argProbes : List (List Str × List Str × List Entity.Arg × List Entity.Var) := ["]
+    L += _items(["(%s, %s, %s, %s)" % (llist(a), llist(e), llist(ra, lambda x: (".declared ⟨%s, %s⟩" % (lc(x[1]), lc(x[2]))) if x[0] == "declared"
+                                                            else ".implicit %s" % lc(x[1])),
+                                       llist(rv, lambda x: "⟨%s, %s⟩" % (lc(x[0]), lc(x[1])))) for a, e, ra, rv in ar])
+    L += ["]", "", "end Ford.Generated.C01", ""]
+    common.write_if_changed(GENERATED, "\n".join(L))
     return casc, table, chc
 
 
 if __name__ == "__main__":
     c, t, h = translate()
+    for row in c:
+        print(row)
     for k, v in t.items():
         print(k, v)
     print(h)
-
-
-# ---------------------------------------------------------------------------
-# attribute bookkeeping: the statements FordModel/Attribs.lean mirrors
-# ---------------------------------------------------------------------------
-
-def _class(tree, name):
-    return next(n for n in tree.body if isinstance(n, ast.ClassDef) and n.name == name)
-
-
-def _method(cls, name):
-    return next(n for n in cls.body if isinstance(n, ast.FunctionDef) and n.name == name)
-
-
-def attrib_tables():
-    src = (common.REPO / "ford" / "sourceform.py").read_text()
-    tree = ast.parse(src)
-    # 1. who owns the attribute list of a variable
-    var_init = _method(_class(tree, "FortranVariable"), "__init__")
-    own = [ast.unparse(n) for n in ast.walk(var_init)
-           if isinstance(n, ast.Assign) and ast.unparse(n.targets[0]) == "self.attribs"]
-    if len(own) != 1:
-        raise ValueError("`self.attribs = ...` not found exactly once in FortranVariable.__init__")
-    params = [a.arg for a in var_init.args.args]
-    if params[:5] != ["self", "name", "vartype", "parent", "attribs"]:
-        raise ValueError("FortranVariable.__init__: `attribs` is no longer the fourth parameter")
-    defaults = var_init.args.defaults
-    default = ast.unparse(defaults[params.index("attribs") - (len(params) - len(defaults))])
-    ltv = next(n for n in tree.body if isinstance(n, ast.FunctionDef) and n.name == "line_to_variables")
-    calls = [n for n in ast.walk(ltv) if isinstance(n, ast.Call) and ast.unparse(n.func) == "FortranVariable"]
-    if len(calls) != 1 or len(calls[0].args) < 4:
-        raise ValueError("the call FortranVariable(name, vartype, parent, <attribs>, ...) not found in line_to_variables")
-    owner = [own[0], "attribs=" + default, ast.unparse(calls[0].args[3])]
-    # 2. the classification loop of line_to_variables
-    loops = [n for n in ast.walk(ltv) if isinstance(n, ast.For) and ast.unparse(n.target) == "tmp_attrib"]
-    if len(loops) != 1:
-        raise ValueError("`for tmp_attrib in tmp_attribs:` not found in line_to_variables")
-    classify = ast.unparse(loops[0]).split("\n")
-    # 3. the ATTRIB_RE branch of the cascade
-    init = _method(_class(tree, "FortranContainer"), "__init__")
-    loop = next(n for n in init.body if isinstance(n, ast.For) and ast.unparse(n.iter) == "source")
-    node = next(n for n in loop.body if isinstance(n, ast.If) and ast.unparse(n.test) == "line_lower == 'contains'")
-    branch = None
-    while True:
-        if "ATTRIB_RE.match" in ast.unparse(node.test):
-            branch = node
-            break
-        if len(node.orelse) == 1 and isinstance(node.orelse[0], ast.If):
-            node = node.orelse[0]
-        else:
-            break
-    if branch is None:
-        raise ValueError("ATTRIB_RE branch not found in the cascade")
-    attr_stmt = "\n".join(ast.unparse(n) for n in branch.body).split("\n")
-    # 4. process_attribs (both), the variable loops; the `external` filter of _cleanup
-    out_loops = {}
-    for cname in ("FortranCodeUnit", "FortranBlockData"):
-        pa = _method(_class(tree, cname), "process_attribs")
-        vl = [n for n in pa.body if isinstance(n, ast.For) and ast.unparse(n.iter) == "self.variables"]
-        if len(vl) != 1:
-            raise ValueError(f"`for var in self.variables:` not found in {cname}.process_attribs")
-        out_loops[cname] = ast.unparse(vl[0]).split("\n")
-    cl = _method(_class(tree, "FortranCodeUnit"), "_cleanup")
-    filt = [ast.unparse(n) for n in cl.body if isinstance(n, ast.Assign) and ast.unparse(n.targets[0]) == "self.variables"]
-    first = ast.unparse(cl.body[0])
-    if len(filt) != 1 or first != "self.process_attribs()":
-        raise ValueError("FortranCodeUnit._cleanup: `self.process_attribs()` first / the `external` filter not found")
-    bd_cl = [ast.unparse(n) for n in _method(_class(tree, "FortranBlockData"), "_cleanup").body]
-    # 5. the helper that builds the key of an attribute statement's item, where it exists (repair cbe48be)
-    kf = [n for n in tree.body if isinstance(n, ast.FunctionDef) and n.name == "_attr_key"]
-    key_fn = []
-    if kf:
-        body = list(kf[0].body)
-        if body and isinstance(body[0], ast.Expr) and isinstance(body[0].value, ast.Constant) and isinstance(body[0].value.value, str):
-            body = body[1:]
-        key_fn = ["def _attr_key(%s):" % ast.unparse(kf[0].args)] + ["    " + l for n in body for l in ast.unparse(n).split("\n")]
-    return {"attrKeyFn": key_fn, "dimReSrc": [_regex_source(tree, "DIM_RE")], "attribsOwner": owner, "attribClassify": classify, "attribStmt": attr_stmt,
-            "processCodeUnit": out_loops["FortranCodeUnit"], "processBlockData": out_loops["FortranBlockData"],
-            "externalFilter": filt[0].split("\n"), "blockDataCleanup": bd_cl}
-
-
-_translate_round2 = translate
-
-
-def translate():
-    r = _translate_round2()
-    at = attrib_tables()
-    path = common.LEAN / "FordModel" / "Generated" / "C01.lean"
-    text = path.read_text()
-    end = "end Ford.Generated.C01\n"
-    head = text[: text.rindex(end)]
-    lines = []
-    docs = {"attrKeyFn": "the module-level helper `_attr_key` (docstring removed), `[]` when the source has none",
-            "dimReSrc": "source of `DIM_RE`",
-            "attribsOwner": "who owns a variable's attribute list: the assignment in FortranVariable.__init__, the default of the "
-                            "parameter, the argument passed by line_to_variables",
-            "attribClassify": "`for tmp_attrib in tmp_attribs:` of line_to_variables",
-            "attribStmt": "body of the ATTRIB_RE branch of FortranContainer.__init__",
-            "processCodeUnit": "`for var in self.variables:` of FortranCodeUnit.process_attribs",
-            "processBlockData": "`for var in self.variables:` of FortranBlockData.process_attribs",
-            "externalFilter": "the assignment to self.variables in FortranCodeUnit._cleanup",
-            "blockDataCleanup": "body of FortranBlockData._cleanup"}
-    for k, v in at.items():
-        lines += ["/-- %s (ast.unparse, one line per entry) -/" % docs[k], "def %s : List String := [" % k]
-        lines += ["  %s%s" % (lean_str(x), "," if i < len(v) - 1 else "") for i, x in enumerate(v)]
-        lines += ["]", ""]
-    # write_if_changed compares with the file on disk: build the complete text first
-    common.write_if_changed(path, head + "\n".join(lines) + end)
-    return r
-
-
-# ---------------------------------------------------------------------------
-# the statement that opens a derived type: the texts FordModel/TypeHead.lean mirrors
-# ---------------------------------------------------------------------------
-
-def _regex_with_flags(node, name):
-    """(pattern, flags) of `name = re.compile(<literal>[, flags])` among the statements of `node`"""
-    for n in node.body:
-        if isinstance(n, ast.Assign) and len(n.targets) == 1 and ast.unparse(n.targets[0]) == name:
-            call = n.value
-            if isinstance(call, ast.Call) and ast.unparse(call.func) == "re.compile" and call.args \
-                    and isinstance(call.args[0], ast.Constant) and isinstance(call.args[0].value, str):
-                flags = [ast.unparse(a) for a in call.args[1:]] + ["%s=%s" % (k.arg, ast.unparse(k.value)) for k in call.keywords]
-                return call.args[0].value, ", ".join(flags)
-    raise ValueError(f"{name} = re.compile(<literal>, ...) not found")
-
-
-def typehead_tables():
-    src = (common.REPO / "ford" / "sourceform.py").read_text()
-    tree = ast.parse(src)
-    cont = _class(tree, "FortranContainer")
-    base = _class(tree, "FortranBase")
-    type_re = _regex_with_flags(cont, "TYPE_RE")
-    extends_re = _regex_with_flags(tree, "EXTENDS_RE")
-    try:
-        split_re = _regex_with_flags(base, "SPLIT_RE")
-    except ValueError:
-        split_re = _regex_with_flags(cont, "SPLIT_RE")
-    init = _method(_class(tree, "FortranType"), "_initialize")
-    body = "\n".join(ast.unparse(n) for n in init.body).split("\n")
-    # the statements up to and including the assignment of self.parameters (what the model mirrors)
-    upto = [i for i, ln in enumerate(body) if ln.strip().startswith("self.parameters = []")]
-    if not upto:
-        raise ValueError("FortranType._initialize: `self.parameters = []` not found")
-    # the branch of the cascade that uses TYPE_RE
-    cinit = _method(cont, "__init__")
-    loop = next(n for n in cinit.body if isinstance(n, ast.For) and ast.unparse(n.iter) == "source")
-    node = next(n for n in loop.body if isinstance(n, ast.If) and ast.unparse(n.test) == "line_lower == 'contains'")
-    branch = None
-    while True:
-        if "TYPE_RE.match" in ast.unparse(node.test):
-            branch = node
-            break
-        if len(node.orelse) == 1 and isinstance(node.orelse[0], ast.If):
-            node = node.orelse[0]
-        else:
-            break
-    if branch is None:
-        raise ValueError("TYPE_RE branch not found in the cascade")
-    br = [ast.unparse(branch.test)] + "\n".join(ast.unparse(n) for n in branch.body).split("\n")
-    # the `type` / `class` alternatives of VARIABLE_STRING (the declaration side of the same exclusion)
-    vs = None
-    for n in cont.body:
-        if isinstance(n, ast.Assign) and ast.unparse(n.targets[0]) == "VARIABLE_STRING" and isinstance(n.value, ast.Constant):
-            vs = n.value.value
-    if vs is None:
-        raise ValueError("VARIABLE_STRING = <literal> not found")
-    # alternatives of the first group, split at `|` outside nested parentheses
-    m0 = vs.index("(")
-    depth, cur, alts_all = 0, "", []
-    for ch in vs[m0 + 1:]:
-        if ch == "(":
-            depth += 1
-        elif ch == ")":
-            if depth == 0:
-                alts_all.append(cur)
-                break
-            depth -= 1
-        if ch == "|" and depth == 0:
-            alts_all.append(cur)
-            cur = ""
-        else:
-            cur += ch
-    alts = [a for a in alts_all if a.startswith("type") or a.startswith("class")]
-    if len(alts) < 2:
-        raise ValueError("VARIABLE_STRING: the `type` / `class` alternatives were not found")
-    return {"typeRe": [type_re[0], type_re[1]], "extendsRe": [extends_re[0], extends_re[1]], "splitRe": [split_re[0], split_re[1]],
-            "typeInitialize": body[: upto[0] + 1], "typeBranch": br, "variableTypeClassAlts": alts}
-
-
-_translate_round3 = translate
-
-
-def translate():
-    r = _translate_round3()
-    tt = typehead_tables()
-    path = common.LEAN / "FordModel" / "Generated" / "C01.lean"
-    text = path.read_text()
-    end = "end Ford.Generated.C01\n"
-    head = text[: text.rindex(end)]
-    docs = {"typeRe": "`FortranContainer.TYPE_RE`: pattern, flags",
-            "extendsRe": "`EXTENDS_RE`: pattern, flags",
-            "splitRe": "`SPLIT_RE`: pattern, flags",
-            "typeInitialize": "`FortranType._initialize` up to `self.parameters = []` (ast.unparse, one line per entry)",
-            "typeBranch": "the TYPE_RE branch of the cascade: its test, then its body (ast.unparse)",
-            "variableTypeClassAlts": "the alternatives of `VARIABLE_STRING` that begin with `type` / `class`"}
-    lines = []
-    for k, v in tt.items():
-        lines += ["/-- %s -/" % docs[k], "def %s : List String := [" % k]
-        lines += ["  %s%s" % (lean_str(x), "," if i < len(v) - 1 else "") for i, x in enumerate(v)]
-        lines += ["]", ""]
-    common.write_if_changed(path, head + "\n".join(lines) + end)
-    return r
